@@ -1,4 +1,4 @@
------------------------------------ MODULE MC_TraceEquiv -----------------------------------
+----------------------------------- MODULE MC_DenominationEquiv -----------------------------------
 (* The DecNat restatement used for trace validation (DenominationD.tla) agrees with the native  *)
 (* rule (Denomination.tla): same canonical split for every input of the model, and the logged-  *)
 (* answer reconcile function reproduces the machine's result on every completed behaviour.      *)
